@@ -249,11 +249,20 @@ def InfoMetricFamily.init (env : Env) (name documentation : List Char) (value : 
   familyInit env .info name documentation infoType [] (labels.isSome && value.isSome) labels
     (fun self => value.map fun v => InfoMetricFamily.addMetric self [] v none)
 
+/-- insertion into a list sorted by state name (the keys of a `dict` are distinct, so the order of `sorted(value.items())`
+is the order of the keys: `str` comparison by code point = lexicographic order on `List Char`) -/
+def insertItem (x : Name × Bool) : List (Name × Bool) → List (Name × Bool)
+  | [] => [x]
+  | y :: ys => if x.1 ≤ y.1 then x :: y :: ys else y :: insertItem x ys
+
+/-- `sorted(value.items())` -/
+def sortedItems (value : List (Name × Bool)) : List (Name × Bool) := value.foldr insertItem []
+
 /-- `StateSetMetricFamily.add_metric(labels, value, timestamp=None)`: one sample per state in `sorted(value.items())`,
 labels `dict(zip(self._labelnames + (self.name,), labels + (state,)))` -/
 def StateSetMetricFamily.addMetric (self : Fam α) (labels : List Name) (value : List (Name × Bool)) (timestamp : Option α) :
     List (Sample α) × Option PyErr :=
-  ((value.mergeSort (fun a b => decide (a.1 ≤ b.1))).map fun st =>
+  ((sortedItems value).map fun st =>
     ⟨self.name ++ statesetSample, mkDict ((self.labelnames ++ [self.name]).zip (labels ++ [st.1])),
       .int (if st.2 then 1 else 0), timestamp, none⟩, none)
 
